@@ -236,6 +236,7 @@ def run(F, rep):
     if getattr(F, "cfg", "dev") == "dev":
         from rules import c03 as c03v
         c03v.vint_rule(F, rep, "C01-DESC", want=("rt",))       # raw lengths and ids of the descriptors travel through this code
+        c03v.zz_rule(F, rep, "C01-DESC")                       # ... and through the predictive zigzag code
     c09.alpha_rules(F, rep, "C01")
     c09.empty_rules(F, rep, "C01")     # "empty delta = copy of the reference" is only sound if the encoder emits it for equal segments only
     c09.pred_rules(F, rep, "C01")
